@@ -631,7 +631,8 @@ static void op_proc_exit(const Op& op) {
 }
 
 // thread-spawn round: tasks call the export concurrently
-struct SpawnRec { uint32_t arg; int32_t ret; };
+struct SpawnRec { uint32_t arg; int32_t ret; int via = 0; };   // via: 0 the translated module, 1 in-process module B, 2 module C (no wasi_thread_start)
+static int g_spawn_mix = 0;
 static std::vector<SpawnRec>* g_spawns = nullptr;
 static const Op* g_spawn_op = nullptr;
 static std::vector<std::vector<uint32_t>> g_spawn_args;
@@ -640,8 +641,10 @@ static void* spawn_task(void* a) {
     for (uint32_t arg : g_spawn_args[t]) {
         sim::yield(Y_OP, t);
         auto it = X->disp.find("thread_spawn"); unsigned long long av[2] = {arg, 0};
-        uint32_t r = (uint32_t)it->second->fn(X->inst, av);
-        g_spawns->push_back(SpawnRec{arg, (int32_t)r});
+        int via = g_spawn_mix ? (int)((arg / 1) % 3) : 0;
+        uint32_t r = via ? (uint32_t)wglue_fake_spawn(via, arg) : (uint32_t)it->second->fn(X->inst, av);
+        SpawnRec sr; sr.arg = arg; sr.ret = (int32_t)r; sr.via = via;
+        g_spawns->push_back(sr);
         log_event("thread_spawn", arg, r);
     }
     return nullptr;
@@ -652,6 +655,7 @@ static void op_spawn_round(const Op& op) {
     uint32_t base = (uint32_t)op.get("argbase", 1);
     for (int t = 0; t < nt; t++) for (int k = 0; k < per; k++) g_spawn_args[(size_t)t].push_back(base + (uint32_t)(t * per + k));
     uint32_t cnt0 = ld32(1024);
+    g_spawn_mix = (int)op.get("mix", 0); int fake0 = wglue_fake_nstarts;
     for (uint32_t a = base; a < base + (uint32_t)(nt * per); a++) st32(2048 + 4 * a, 0);
     g_cur_op = &op; g_calls = nullptr;
     sim::sut_enter();
@@ -661,6 +665,16 @@ static void op_spawn_round(const Op& op) {
     g_cur_op = nullptr; g_spawns = nullptr;
     std::set<int32_t> ids; uint32_t okc = 0;
     for (auto& s : recs) {
+        if (s.via == 2) { if (s.ret >= 0) V("thread", "thread-spawn:missing-export-not-negative:other-module", "returned " + std::to_string(s.ret) + " for an instance of a module that does not export wasi_thread_start (after spawns from modules that do)"); continue; }
+        if (s.via == 1) {
+            if (s.ret <= 0) { if (X->plan->tcfail == 0) V("thread", "thread-spawn:failed-without-fault:other-module", "returned " + std::to_string(s.ret) + " for a module that exports wasi_thread_start"); continue; }
+            if (!ids.insert(s.ret).second) V("thread", "thread-spawn:duplicate-thread-id", "thread id " + std::to_string(s.ret) + " was returned by more than one spawn");
+            int n = 0; bool child = false;
+            for (int q = fake0; q < wglue_fake_nstarts; q++) if (wglue_fake_starts[q].arg == s.arg && wglue_fake_starts[q].tid == (uint32_t)s.ret) { n++; child = wglue_fake_starts[q].which == 1 && wglue_fake_starts[q].on_child; }
+            if (n != 1) V("thread", "thread-spawn:other-module-start-count", "the spawning module's wasi_thread_start ran " + std::to_string(n) + " times for spawn(arg " + std::to_string(s.arg) + ") = " + std::to_string(s.ret));
+            else if (!child) V("thread", "thread-spawn:other-module-start-not-on-child-instance", "");
+            continue;
+        }
         if (X->plan->nothread) { if (s.ret >= 0) V("thread", "thread-spawn:missing-export-not-negative", "returned " + std::to_string(s.ret) + " although the module does not export wasi_thread_start"); continue; }
         if (s.ret <= 0) { if (X->plan->tcfail == 0) V("thread", "thread-spawn:failed-without-fault", "returned " + std::to_string(s.ret)); else if (ld32(2048 + 4 * s.arg) != 0) V("thread", "thread-spawn:start-ran-for-failed-spawn", "arg " + std::to_string(s.arg)); continue; }
         okc++;
